@@ -347,6 +347,42 @@ func FieldRead(v ssa.Value) (*types.Var, ssa.Value) {
 		}
 	case *ssa.Field:
 		return fieldOfField(x), x.X
+	case *ssa.Call:
+		// a generated protobuf getter: m.GetX() answers m.X (the zero value for a nil m)
+		if f, base := pbGetter(x); f != nil {
+			return f, base
+		}
+	}
+	return nil, nil
+}
+
+// pbGetter recognises a static call of a generated getter (declared in a *.pb.go file, named Get<Field>, no parameters but
+// the receiver, receiver a pointer to a struct with a field of that name and the result's type).
+func pbGetter(call *ssa.Call) (*types.Var, ssa.Value) {
+	callee := call.Call.StaticCallee()
+	if callee == nil || call.Call.IsInvoke() || len(call.Call.Args) != 1 || !strings.HasPrefix(callee.Name(), "Get") || callee.Prog == nil {
+		return nil, nil
+	}
+	if !strings.HasSuffix(callee.Prog.Fset.Position(callee.Pos()).Filename, ".pb.go") {
+		return nil, nil
+	}
+	sig := callee.Signature
+	if sig.Recv() == nil || sig.Results().Len() != 1 {
+		return nil, nil
+	}
+	pt, ok := sig.Recv().Type().Underlying().(*types.Pointer)
+	if !ok {
+		return nil, nil
+	}
+	st, ok := pt.Elem().Underlying().(*types.Struct)
+	if !ok {
+		return nil, nil
+	}
+	name := strings.TrimPrefix(callee.Name(), "Get")
+	for i := 0; i < st.NumFields(); i++ {
+		if f := st.Field(i); f.Name() == name && types.Identical(f.Type(), sig.Results().At(0).Type()) {
+			return f, call.Call.Args[0]
+		}
 	}
 	return nil, nil
 }
